@@ -9,6 +9,7 @@ correspondence run exercises and nothing here proves.
 import Model.Fits
 import Proofs.Fits
 import Proofs.FitsFS
+import Proofs.FitsHistory
 
 open Model Model.Fits
 
@@ -172,6 +173,54 @@ theorem bare_name_cwd (fs : FS γ) (name : String) (ow : Bool) (c : γ)
     · rw [h2] at h; cases h
   · exact ⟨fs', h2, h3, h7 (Or.inl rfl)⟩
 
+
+/-- (write then read, end to end) `a.output_to_fits(path, overwrite)` followed by
+    `Array2D.from_fits(path, pixel_scales, hdu=0)`, in any filesystem state where the call is allowed
+    (target absent, or overwrite requested): the call succeeds, the path then holds the one-HDU file of
+    `a.hdu_for_output`, and reading it returns `a`'s shape and native values — whatever was at the
+    path before. -/
+theorem output_to_fits_then_from_fits [DecidableEq α] (fs : FS (File α)) (p : Path) (ow flip : Bool)
+    (m : Mask) (slim : List α) (sc user : α × α) (zero : α) (hh : 0 < m.h)
+    (ht : FS.Target fs p) (hc : FS.DirsClosed fs) (hok : fs.isFile p = false ∨ ow = true) :
+    ∃ fs' file, output fs p ow (fileOf (array2dHdu flip m slim sc zero)) = .ok fs'
+      ∧ fs'.read p = some file
+      ∧ ∃ r, array2dFromFits flip file 0 user zero = some r
+          ∧ r.mask = allFalse m.h m.w ∧ r.scales = user
+          ∧ r.native zero = some (Impl.nativeFrom m slim zero) := by
+  rcases FS.output_spec fs p ow (fileOf (array2dHdu flip m slim sc zero)) ht hc with
+    ⟨h1, h2, _⟩ | ⟨_, fs', h2, h3, _⟩
+  · rcases hok with h | h
+    · rw [h1] at h; cases h
+    · rw [h2] at h; cases h
+  · refine ⟨fs', _, h2, h3, ?_⟩
+    exact (array2d_file_roundtrip flip _ 0 m slim sc user zero hh rfl).1
+
+/-- (every history) for any finite sequence of `output_to_fits` calls whose targets come from a pool
+    of compatible paths (each names a file; none is an ancestor directory of another), started in any
+    state reachable that way: the outcome of every call and the content found afterwards at **every**
+    path are those of the abstract semantics `specRun` — a call fails iff its path holds something and
+    overwrite is off and then changes nothing; otherwise the path holds the new content, everything
+    else is as before.  So the last successful write wins and stale content never survives. -/
+theorem history_semantics {P : Path → Prop} (hP : PoolOK P) (steps : List (Path × Bool × γ))
+    (fs : FS γ) (hi : Inv P fs) (hs : ∀ s ∈ steps, P s.1) :
+    (outputs fs steps).1 = (specRun fs.read steps).1
+    ∧ (∀ q, (outputs fs steps).2.read q = (specRun fs.read steps).2 q)
+    ∧ Inv P (outputs fs steps).2 := by
+  rw [outputs_eq_rec]
+  exact outputsRec_spec hP steps fs hi hs
+
+/-- the empty filesystem is a legitimate start of a history -/
+theorem empty_fs_inv (P : Path → Prop) (hP : PoolOK P) : Inv P (⟨[], []⟩ : FS γ) := by
+  refine ⟨?_, ?_, ?_⟩
+  · intro d hd q hq
+    have : d = [] := by simpa [FS.isDir] using hd
+    subst this
+    simp [FS.prefixes] at hq
+  · intro q hq; simp [FS.isFile] at hq
+  · intro d hd hPd
+    have : d = [] := by simpa [FS.isDir] using hd
+    exact hP.nonempty d hPd this
+
 /-! ### non-vacuity -/
 
 /-- a concrete masked, non-square, asymmetric array with anisotropic scales, flipped: the HDU holds the
@@ -203,5 +252,16 @@ example :
   rcases this with rfl | rfl
   · simp [FS.prefixes] at hq
   · simp [FS.prefixes] at hq; subst hq; decide
+
+/-- a pool meeting `PoolOK`, and a concrete history through `outputs` -/
+example :
+    PoolOK (fun p => p = ["a.fits"] ∨ p = ["d", "b.fits"])
+    ∧ ((outputs (⟨[], []⟩ : FS Nat)
+          [(["a.fits"], false, 1), (["d", "b.fits"], false, 2), (["a.fits"], false, 3),
+           (["a.fits"], true, 4)]).1
+        = [none, none, some "exists_no_overwrite", none]) := by
+  refine ⟨⟨?_, ?_⟩, by decide⟩
+  · rintro p (rfl | rfl) <;> simp
+  · rintro p q (rfl | rfl) (rfl | rfl) <;> simp [FS.prefixes]
 
 end C16
